@@ -71,13 +71,6 @@ func (r *resolver) module(y *Module) error {
 		return err
 	}
 
-	// after the includes, submodules define features of the module too
-	if y.featureSet != nil {
-		if err := y.featureSet.Initialize(y); err != nil {
-			return err
-		}
-	}
-
 	// expand all imports first because local uses may reference groupings in other files.
 	if len(y.imports) > 0 {
 		// imports were indexed by module name, but now that we know the
@@ -115,6 +108,14 @@ func (r *resolver) module(y *Module) error {
 			// imports were originally added by module name, but now that we know the
 			// prefix, we need to re-add them with proper key: prefix
 			y.imports[i.Prefix()] = i
+		}
+	}
+
+	// after the includes, submodules define features of the module too, and after the
+	// imports, the if-feature of a feature may name a feature of an imported module
+	if y.featureSet != nil {
+		if err := y.featureSet.Initialize(y); err != nil {
+			return err
 		}
 	}
 
